@@ -52,6 +52,10 @@ func panicClass(e interface{}) string {
 		if _, ok := x.(*strconv.NumError); ok {
 			return "crash:numerror"
 		}
+		// a value of an undocumented dynamic type reached a conversion or the comparison dispatch
+		if strings.Contains(x.Error(), "unknown value type") || strings.Contains(x.Error(), "unexpected type") {
+			return "crash:type"
+		}
 		return "raised"
 	case string:
 		return "raised"
